@@ -851,3 +851,19 @@ let lag_of sym_lags min_lags =
 
 let lead_of sym_leads min_leads =
   Z.max (Z.abs (zmax_list sym_leads)) min_leads
+
+(** val idx_text : z -> str **)
+
+let idx_text = function
+| Z0 -> lit ('t'::[])
+| Zpos q -> app (lit ('t'::('+'::[]))) (dec (Pos.to_nat q))
+| Zneg q -> app (lit ('t'::('-'::[]))) (dec (Pos.to_nat q))
+
+(** val f_idx_text : z -> str **)
+
+let f_idx_text = function
+| Z0 -> lit ('i'::('n'::('d'::('e'::('x'::[])))))
+| Zpos q ->
+  app (lit ('i'::('n'::('d'::('e'::('x'::('+'::[]))))))) (dec (Pos.to_nat q))
+| Zneg q ->
+  app (lit ('i'::('n'::('d'::('e'::('x'::('-'::[]))))))) (dec (Pos.to_nat q))
